@@ -1,10 +1,71 @@
 import Dmn.Model.Sexp
+import Dmn.Model.LalrDriver
 
-/-! Driver handler for C05 — not implemented yet. -/
+/-!
+Driver handler for C05 (parser side):
+
+* `(c05 drive (tok…) failAt fuel)` — runs the model of the LALR driver loop
+  (`Dmn.Lalr.step` over the regenerated tables) on the lexer answers `tok` (a token type code,
+  or the atom `err` for a lexer error); `failAt` is the index (0-based) of the reduction whose
+  reduce action answers `Err`, or `-1`.  Answer: the event list
+  `(S state) (T code) (R rule) (N state) … (result …)` in the order in which the traced Rust
+  parser prints `NEW-STATE`, `lexer: yy_char`, `reducing_using_rule`, `new_state`.
+* `(c05 tables)` — lengths and constants of the regenerated tables.
+-/
 
 namespace Dmn.Driver.C05
-open Dmn
+open Dmn Dmn.Lalr
 
-def handle (_args : List Sexp) : String := "(error not-implemented)"
+def siteStr : Site → String
+  | .pact => "pact" | .translate => "translate" | .arith => "arith" | .check => "check"
+  | .table => "table" | .defAct => "defAct" | .r2 => "r2" | .r1 => "r1" | .r1Sub => "r1Sub"
+  | .pGoto => "pGoto" | .gotoCheck => "gotoCheck" | .gotoTable => "gotoTable"
+  | .defGoto => "defGoto" | .stackTop => "stackTop"
+
+def resStr : Result → String
+  | .accept => "accept" | .syntaxError => "syntaxError" | .lexerError => "lexerError"
+  | .actionError => "actionError" | .panic s => "panic:" ++ siteStr s | .fuelOut => "fuelOut"
+
+/-- `run` with an event log. -/
+def trace (T : Tables) (act : Nat → Int → Bool) : Nat → P → Action → List String → List String
+  | 0, _, _, acc => ("(result fuelOut)" :: acc).reverse
+  | fuel + 1, p, a, acc =>
+    let acc :=
+      match a with
+      | .newState =>
+        let acc := s!"(S {p.state})" :: acc
+        -- a token is fetched when the state has a non-default action and no look-ahead is held
+        if p.state ≠ T.final ∧ (idx T.pact p.state).isSome ∧ idx T.pact p.state ≠ some T.pactNInf
+            ∧ p.char = T.ttEmpty then
+          match p.toks with
+          | [] => s!"(T {T.ttEof})" :: acc
+          | .tok c :: _ => s!"(T {c})" :: acc
+          | .err :: _ => acc
+        else acc
+      | .reduce => s!"(R {p.n})" :: acc
+      | .error => "(E)" :: acc
+      | .error1 => "(E1)" :: acc
+      | _ => acc
+    match step T act p a with
+    | .done r => (s!"(result {resStr r})" :: acc).reverse
+    | .next p' a' =>
+      let acc := if a = .reduce then s!"(N {p'.state})" :: acc else acc
+      trace T act fuel p' a' acc
+
+def tokOf : Sexp → Option LexRes
+  | .atom "err" => some .err
+  | x => (Sexp.int? x).map .tok
+
+def handle (args : List Sexp) : String :=
+  match args with
+  | [.atom "drive", .list toks, failAt, fuel] =>
+    match toks.mapM tokOf, Sexp.int? failAt, Sexp.nat? fuel with
+    | some toks, some failAt, some fuel =>
+      let act : Nat → Int → Bool := fun i _ => !(decide ((i : Int) = failAt))
+      "(" ++ " ".intercalate (trace gen act fuel (init gen toks) .newState []) ++ ")"
+    | _, _, _ => "(error bad-args)"
+  | [.atom "tables"] =>
+    s!"(tables (pact {gen.pact.length}) (defAct {gen.defAct.length}) (table {gen.table.length}) (check {gen.check.length}) (pGoto {gen.pGoto.length}) (defGoto {gen.defGoto.length}) (r1 {gen.r1.length}) (r2 {gen.r2.length}) (translate {gen.translate.length}) (last {gen.last}) (final {gen.final}) (nTokens {gen.nTokens}) (ok {tablesOk gen}))"
+  | _ => "(error bad-request)"
 
 end Dmn.Driver.C05
